@@ -12,11 +12,13 @@ import AsamCmp.Lemmas.FieldCheckSound
 namespace AsamCmp.SrcFields
 open AsamCmp AsamCmp.Src.Bit AsamCmp.SrcGen
 
-/-- accessors of protocol-table fields that are NOT covered at source level (they stay with the sampled correspondence):
-    the three IEEE-754 fields of the analog header (floating point is outside the translated subset) and its sample-type field
-    (the API takes an enumerator, not a number) -/
-def exemptAnalog : List (String × String) := [("sampleDt", "get"), ("sampleDt", "set"), ("sampleInterval", "get"), ("sampleInterval", "set"),
-  ("sampleOffset", "get"), ("sampleOffset", "set"), ("sampleScalar", "get"), ("sampleScalar", "set")]
+/-- accessors of protocol-table fields that are NOT covered at source level: none any more.  The three IEEE-754 fields of the analog
+    header are covered as 32-bit patterns (the accessors only move the value: load / store, by-value passing, and the byte permutation
+    through `char*` of `swapEndian(float)`, translated as operations on the local's bits; any arithmetic, comparison or conversion on
+    a `float` is outside the fragment and would leave the field without an entry, i.e. break `analog_coverage`).  The sample-type
+    field's accessors take / return the enumerator, which is the field value in wire byte order (`value << 8` on the host): entries
+    with shift 8. -/
+def exemptAnalog : List (String × String) := []
 
 theorem canfd_checks : classCheck Layout.c_canfd entries_canfd = true := by decide +kernel
 theorem canfd_src : ∀ e ∈ entries_canfd, ∃ f, Layout.c_canfd.find e.field = some f ∧ e.acc.Holds Layout.c_canfd.size f :=
